@@ -155,6 +155,16 @@ func RacePass(c *fw.Ctx, prop string) {
 	if n > 0 {
 		i := strings.Index(text, "WARNING: DATA RACE")
 		rep := text[i:]
+		// a report none of whose frames lies in the repository or its two instrumented dependencies is a race
+		// of the harness itself: never a verdict on the property
+		first := rep
+		if j := strings.Index(rep[1:], "WARNING: DATA RACE"); j > 0 {
+			first = rep[:j+1]
+		}
+		if !strings.Contains(first, "hnakamur/whispertool") && !strings.Contains(first, "/repo/") && !strings.Contains(first, "hnakamur/filebuffer") && !strings.Contains(first, "x/sync") && !strings.Contains(first, "/instr/") {
+			c.Inconclusive("the race pass reported a race with no frame in the code under test (harness race): " + clip(firstLine(first[len("WARNING: DATA RACE"):]), 200))
+			return
+		}
 		if len(rep) > 1800 {
 			rep = rep[:1800]
 		}
